@@ -1,9 +1,9 @@
 // C09 — loaders fail cleanly on malformed or truncated files.
 // Engine E3 (fault enumeration): for every serialisable class (vf/corpus.hpp) and every small valid neutral file of its corpus,
 //   (a) EVERY byte prefix (interrupted write), also completed by a garbage character,
-//   (b) every value token x replacement menu {-1,0,1,2,7,1000000000,2147483648,NA,x,1e400,-0.0,1.5,<deleted>,<10 kB token>},
+//   (b) every value token x replacement menu {-1,0,1,2,7,2000000000,2147483648,NA,x,1e400,-0.0,1.5,<deleted>,<10 kB token>},
 //   (c) every line deleted / duplicated / swapped with the next one, one extra value appended to every value line,
-//   (d) (thorough) every pair of the first 8 integer header tokens x {-1,0,2,1000000000,NA}^2,
+//   (d) (thorough) every pair of the first 8 integer header tokens x {-1,0,2,2000000000,NA}^2,
 // plus CSV files (Db and Polygons drivers, WKT), LAS well files, legacy keyword files and every grid exchange format that has a
 // reader (Zycor, IfpEn, F2G as text; BMP as binary: every prefix, every header field x integer menu, every header byte x {00,ff}).
 // Each faulty file is loaded in a forked child under AddressSanitizer. Allowed outcomes: the loader reports failure, or it
@@ -125,11 +125,11 @@ static Parsed parse_text(const std::string& t, bool hasTagLine)
 static const std::vector<std::pair<std::string, std::string>>& repl_menu()
 {
   static const std::vector<std::pair<std::string, std::string>> v = {
-    {"-1", "neg"}, {"0", "zero"}, {"1", "small"}, {"2", "small"}, {"7", "small"}, {"1000000000", "huge"}, {"2147483648", "overflow"},
+    {"-1", "neg"}, {"0", "zero"}, {"1", "small"}, {"2", "small"}, {"7", "small"}, {"2000000000", "huge"}, {"2147483648", "overflow"},
     {"NA", "NA"}, {"x", "text"}, {"1e400", "overflow"}, {"-0.0", "zero"}, {"1.5", "float"}, {"", "deleted"}, {std::string(10240, '9'), "longtoken"}};
   return v;
 }
-static const std::vector<std::string>& pair_menu() { static const std::vector<std::string> v = {"-1", "0", "2", "1000000000", "NA"}; return v; }
+static const std::vector<std::string>& pair_menu() { static const std::vector<std::string> v = {"-1", "0", "2", "2000000000", "NA"}; return v; }
 
 // class of a token of the VALID file: count-token (unsigned integer literal), value-token (other number or NA), name-token (anything else)
 static std::string token_class(const std::string& w)
@@ -302,6 +302,9 @@ static std::string db_use(Db* db, int wfd)
 }
 
 // ---------------------------------------------------------------------------------------------
+// a loader is charged with resource exhaustion above CPU_FLAG seconds of CPU (the child is killed at 3 s); the menus are kept such
+// that every case either needs less than CPU_FLAG/4 or is killed at the hard limit (see "TIMING-SENSITIVE" in the histogram)
+static const double CPU_FLAG = 1.0;
 struct Outcome { std::string result, signature, stage, detail, site, exc, raw; double cpu = 0., loadcpu = -1.; bool killed = false, memory = false; };   // signature "" = allowed outcome
 static Outcome judge(const ChildResult& r, double cpu)
 {
@@ -356,21 +359,31 @@ static Outcome judge(const ChildResult& r, double cpu)
   bool memory = memcap || (r.kind == ChildResult::EXITED && (r.code == 93 || r.code == 96)) || asan == "out-of-memory" || asan == "allocation-size-too-big" || asan == "requested" || asan == "calloc-overflow";
   o.loadcpu = loadcpu;
   o.memory = memory;
-  if (!memory && asan.empty() && o.result == "ok-object" && inv.empty() && loadcpu >= 0. && loadcpu <= 2.0 && (r.kind == ChildResult::TIMEOUT || xcpu || cpu > 2.0))
+  bool limit = r.kind == ChildResult::TIMEOUT || xcpu;          // stopped by the CPU limit (or the last-resort wall clock)
+  double rc = loadcpu >= 0. ? loadcpu : cpu;                     // CPU charged to the loader: up to the end of the load when it returned
+  // 1. memory exhaustion is a definite, size-driven event
+  if (memory) { o.signature = "resource-exhaustion"; return o; }
+  // 2. stopped by the limit
+  if (limit)
   {
-    // the loader returned within the CPU budget; the budget was exhausted by the harness inspecting a large (valid) object
-    o.detail = "large-object-inspection-cut ";
+    if (asan.empty() && o.result == "ok-object" && inv.empty() && loadcpu >= 0. && loadcpu <= CPU_FLAG)
+    {
+      // the loader returned within the CPU budget; the budget was exhausted by the harness inspecting a large (valid) object
+      o.detail = "large-object-inspection-cut ";
+      return o;
+    }
+    o.signature = "resource-exhaustion";
     return o;
   }
-  if (r.kind == ChildResult::TIMEOUT || xcpu || memcap || cpu > 2.0 || (r.kind == ChildResult::EXITED && (r.code == 93 || r.code == 96)) ||
-      asan == "out-of-memory" || asan == "allocation-size-too-big" || asan == "requested" || asan == "calloc-overflow")
-  { o.signature = "resource-exhaustion"; return o; }
+  // 3. the child ended by itself with a definite failure: that is the outcome, however long it took
   if (!asan.empty()) { o.signature = "asan-" + asan; return o; }
   if (r.kind == ChildResult::SIGNALED) { o.signature = r.describe().substr(7); return o; }   // SIGSEGV, SIGABRT, SIGFPE
   if (r.kind == ChildResult::EXITED && r.code == 95) { o.signature = "uncaught-exception"; return o; }
   if (r.kind == ChildResult::EXITED && r.code != 0) { o.signature = "exit-" + std::to_string(r.code); return o; }
   if (!inv.empty()) { o.signature = "invalid-object-" + inv; return o; }
   if (o.result.empty()) { o.signature = "no-result"; return o; }
+  // 4. normal end: allowed unless the loader itself needed too much CPU
+  if (rc > CPU_FLAG) { o.signature = "resource-exhaustion"; return o; }
   if (o.result == "ok-object" && !done) { o.signature = "incomplete-" + o.stage; return o; }
   return o;
 }
@@ -476,13 +489,15 @@ static void fault_run(Ctx& C, const std::string& cls, const std::string& textId,
     {
       // CPU charged to the loader: up to the end of the load when it returned, else everything
       double rc = o.loadcpu >= 0. ? o.loadcpu : o.cpu;
-      const char* band = rc < 0.1 ? "<0.1s" : rc < 0.5 ? "0.1-0.5s" : rc < 2.0 ? "0.5-2s" : "above-2s";
+      const char* band = rc < 0.1 ? "<0.1s" : rc < 0.25 ? "0.1-0.25s" : rc < CPU_FLAG ? "0.25-1s" : "above-1s";
       C.outcome(std::string("cpu-band ") + band);
       // the verdict could flip on a machine of different speed only if (a) an ALLOWED outcome needed 0.5-2 s, or (b) the case is
       // charged for CPU alone (no memory limit, no exception) although it ended on its own (2-3 s)
-      bool sensitive = (o.signature.empty() && rc >= 0.5) || (o.signature == "resource-exhaustion" && !o.memory && !o.killed);
+      // (c) a definite failure of another class that needed more than 1 s in total would turn into "killed at 3 s" on a 3x slower machine
+      bool sensitive = (o.signature.empty() && rc >= CPU_FLAG / 4.) || (o.signature == "resource-exhaustion" && !o.memory && !o.killed) ||
+                       (!o.signature.empty() && o.signature != "resource-exhaustion" && o.cpu >= 1.0);
       if (sensitive)
-      { C.outcome("cpu-band TIMING-SENSITIVE (ended on its own after 0.5-3 s)"); C.note("timing-sensitive case " + cls + " " + g_tl + std::to_string(myid) + ": " + m.desc + " loader-cpu=" + fmt(rc)); }
+      { C.outcome("cpu-band TIMING-SENSITIVE (allowed outcome above 0.25 s / charged for CPU alone but ended on its own / other failure after more than 1 s)"); C.note("timing-sensitive case " + cls + " " + g_tl + std::to_string(myid) + ": " + m.desc + " loader-cpu=" + fmt(rc)); }
     }
     if (C.verbose) fprintf(stderr, "---- child output ----\n%s\n----------------------\n", o.raw.c_str());
     if (o.signature.empty())
